@@ -109,8 +109,8 @@ void HttpServer::serve(Socket client)
 					if (range.startsWith("bytes=") && !range.contains(',')) // no multiple ranges
 					{
 						Array<String> parts = range.substr(6).split('-');
-						int begin = parts[0];
-						int end = parts[1];
+						int begin = parts.length() > 0 ? (int)parts[0] : 0;
+						int end = parts.length() > 1 ? (int)parts[1] : 0; // "bytes=5" has no second part
 						response.setCode(206);
 						response.setHeader("Content-Range", "+");
 						response.putFile(file.path(), begin, end);
